@@ -173,6 +173,19 @@ PROPS = {
                       'build-tag verif hook internal/app/subsystems/aio/sender/verif_hooks.go (exposes the worker; adds no behaviour)',
                       'the body is checked field by field on the real bytes, not modelled byte for byte'],
     ),
+    'C12': dict(
+        modules=['Resonate.Properties.C12'],
+        tie_filter=r'^$',
+        harness=[sysdiff('sysdiff-backpressure', None, (25, 120), (600, 150), 'C12,C01', ['-smallcfg', '-shutdown', '50', '-fail', '15', '-crash', '1', '-routed', '40', '-known', 'F5'], (200, 150))],
+        rule=SYS_RULE + '; queue / batch / pool sizes drawn down to 1 (API queue 1..100, coroutine pool 1..1000, submission batch 1..1000), shutdown requested at a random moment in about half of the scripts, '
+             '15% of the submissions fail before or after processing; the C12 monitor counts the responses of every request id on the implementation (never two, none for an id never submitted) and, at the end '
+             'of every script, keeps the server running for 8*(outstanding+5) further rounds and requires exactly one response for every request submitted since the last crash',
+        assumptions=['request ids are distinct (the front ends draw a fresh id per request)', 'no process crash between submission and response (responses of in-flight requests die with the process: C06)',
+                     'the kernel does not halt on a panic (C13)'],
+        trusted_base=['kernel tick and coroutines are modelled by hand (Model/System, Model/Coroutines) and tied by sysdiff, which compares the response events of every step',
+                      'clients are serialised by the harness: concurrent EnqueueSQE from several goroutines on the real API channel is Go channel semantics and is not exercised',
+                      'the AIO subsystem queues are owned by the harness: a full subsystem queue appears as an injected failure of the submission'],
+    ),
     'C14': dict(
         modules=['Resonate.Properties.C14'],
         tie_filter=r'(promise|schedule)(Search|Insert|Update|Delete|Select)|shape|wiring|uniques',
